@@ -153,8 +153,12 @@ class Interner:
 
 
 def mol_descr(mol):
+    """(name, index of the first atom, atom count, residue numbers, coordinate checksum); the Coq text uses the first
+    four fields, the checksum makes System[i] / slices / iteration comparable on the coordinates as well"""
     ids = mol.atoms_ids
-    return (mol.name, ids[0] - 1, len(mol), tuple(mol.resids))
+    pos = np.asarray(mol.atoms_positions, dtype=float)
+    return (mol.name, ids[0] - 1, len(mol), tuple(mol.resids),
+            tuple(float(x) for x in np.round((pos * np.arange(1, len(pos) + 1)[:, None]).sum(axis=0), 3)))
 
 
 def catch(f):
@@ -247,8 +251,9 @@ def coq_obs(obs, I):
     def rlist(ok, v):
         return "(OOk %s)" % coq_nats([idx(d) for d in v]) if ok else "(OErr %d)" % v
     it = rlist(obs["iter_ok"], obs["iter"])
+    keep = obs.get("k_items")       # long systems: K compares System[i] around the boundaries, S compares every i
     items = "[" + ";".join("((%d)%%Z,%s)" % (i, "OOk %d" % idx(d) if ok else "OErr %d" % d)
-                           for i, ok, d in obs["items"]) + "]"
+                           for i, ok, d in obs["items"] if keep is None or i in keep) + "]"
     sl = "[" + ";".join("((%s,%s,%s),%s)" % (coq_oz(a), coq_oz(b), coq_oz(c), rlist(ok, v))
                         for (a, b, c), ok, v in obs["slices"]) + "]"
     if obs["comp_ok"]:
@@ -498,6 +503,8 @@ def run_system(job):
         for oi, order in enumerate(job["orders"]):
             views = view_orders is None or oi in view_orders
             slices = slices_for(n_guess, rs, job.get("full_slices", False)) if views else []
+            if job.get("kind") == "block":
+                slices = slices[:2] + [(126, 131, None), (-3, None, None), (None, None, 64)] if views else []
             loads, obs, mols, syst = observe_session(built, mtops, order, slices, items=views)
             out["sessions"] += 1
             out["hist"]["accepted"] += sum(1 for c in loads if c == 0)
@@ -516,7 +523,10 @@ def run_system(job):
                 bad = oracle_session(spec, built, order, obs, mols, loads, views) + oracle_slices(obs)
                 if bad:
                     out["fails"].append((order, bad))
-            if job.get("in_k", True):
+            if job.get("in_k", True) and (job.get("k_orders") is None or oi in job["k_orders"]):
+                if job.get("kind") == "block" and obs["len_ok"]:
+                    n = obs["len"]
+                    obs["k_items"] = set(i for c in (-n, -129, 0, 128, n) for i in range(c - 3, c + 3))
                 key = coq_obs(obs, I)
                 groups.setdefault(key, []).append((order, loads))
             del syst
@@ -635,6 +645,33 @@ def random_wild_spec(rs):
     return {"species": species, "segments": segs, "tops": tops, "top_species": list(range(len(tops)))}
 
 
+BLOCK_SPECIES = [
+    {"name": "ONE", "residues": [["O1", ["o1", "o2"]]]},
+    {"name": "DIM", "residues": [["DA", ["d1", "d2"]], ["DB", ["d3"]]]},
+    {"name": "TRI", "residues": [["T1", ["t1"]], ["T1", ["t1"]], ["T2", ["t2", "t3"]]]},
+]
+BLOCK_ION = {"name": "ION", "residues": [["ION", ["q1"]]]}
+
+
+def block_spec(which, n, tail=3):
+    """size-boundary system: solvent, ION, an uninterrupted block of n instances of a 1-/2-/3-residue species, ION,
+    solvent, a second short block of the same species, ION (chunked or block-wise reading of long runs)"""
+    species = [BLOCK_SPECIES[which], BLOCK_ION]
+    segs = [SOLVENT, SOLVENT, 1] + [0] * n + [1, SOLVENT] + [0] * tail + [1]
+    return {"species": species, "segments": segs, "tops": [species_top(sp) for sp in species], "top_species": [0, 1]}
+
+
+def block_jobs(ctx, rs):
+    jobs = []
+    sizes = [127, 128, 129, 130, 300] if ctx.quick else [127, 128, 129, 130, 255, 256, 257, 300, 385, 640]
+    for which in range(3):
+        for n in sizes:
+            jobs.append({"spec": block_spec(which, n), "orders": [[0, 1], [1, 0]], "domain": True, "kind": "block",
+                         "block": [which, n], "seed": int(rs.randint(0, 2 ** 31)), "view_orders": [0],
+                         "k_orders": [0]})
+    return jobs
+
+
 def samekey_spec(variant, segs, sizes=(3, 1)):
     """species 0 has two residues MON with equal size and different atom names: adjacent (variant 0) or separated
     by a residue MID (variant 1); species 1 is an ordinary one-residue species; segment 2 = solvent residue"""
@@ -687,6 +724,10 @@ CORPUS_SAMEKEY = [
 ]
 
 
+# solvent, ION, 130 x (DA DB), ION, ... : the layout on which a chunked block reader went wrong from molecule 129 on
+CORPUS_BLOCKS = [(1, 130), (2, 129)]
+
+
 def report(ctx, job, r, counters):
     """violations of one run_system result; clauses caused by the known finding go under its key"""
     for order, bad in r["fails_keyed"]:
@@ -713,6 +754,14 @@ def corpus(ctx):
         for order, bad in r["fails"]:
             ctx.violation("C11 on a committed witness: " + "; ".join(bad[:4]),
                           {"kind": "fixed", "seq": list(c["seq"]), "orders": [order], "domain": True}, key="recognition")
+    # long uninterrupted blocks: iteration must agree with indexing and with the file on EVERY molecule
+    for which, n in CORPUS_BLOCKS:
+        job = {"spec": block_spec(which, n), "orders": [[0, 1]], "domain": True, "kind": "block", "block": [which, n], "seed": 1}
+        r = run_system(job)
+        S["corpus"] += r["sessions"]
+        for order, bad in r["fails"]:
+            ctx.violation("C11 on a committed witness (block of %d consecutive %s): " % (n, BLOCK_SPECIES[which]["name"]) +
+                          "; ".join(bad[:4]), job_replay(job, order), key="recognition")
     cnt = {}
     for c in CORPUS_SAMEKEY:
         job = {"spec": samekey_spec(c["variant"], c["segs"]), "orders": [[0], [0, 1], [1, 0]], "domain": False,
@@ -769,6 +818,12 @@ def make_jobs(ctx):
     # the known finding same_key_residues: out of the domain streams; K compares them like any wild case,
     # S reports the refusal/misrecognition under the key and anything else as an ordinary violation
     jobs += samekey_jobs(rs, ctx.n(40, 400))
+    # size-boundary systems (blocks of 127..130 and 300+ consecutive instances), spread over the first half of the list
+    # so that their long Coq texts land in different shards
+    bj = block_jobs(ctx, rs)
+    step = max(1, (len(jobs) // 2) // len(bj))
+    for k, j in enumerate(bj):
+        jobs.insert(k * step + 5, j)
     return jobs
 
 
@@ -778,6 +833,8 @@ def job_replay(job, order=None):
         r["samekey"] = True
     if job["kind"] == "fixed":
         r["seq"] = job["seq"]
+    elif job["kind"] == "block":
+        r["block"] = job["block"]
     else:
         r["spec"] = job["spec"]
     r["orders"] = [order] if order is not None else job["orders"]
@@ -857,7 +914,11 @@ def correspondence(ctx):
 
 
 def spec_of(r):
-    return fixed_spec(r["seq"]) if r["kind"] == "fixed" else r["spec"]
+    if r["kind"] == "fixed":
+        return fixed_spec(r["seq"])
+    if r["kind"] == "block":
+        return block_spec(*r["block"])
+    return r["spec"]
 
 
 def replay_obj(r):
@@ -900,7 +961,7 @@ def oracle(ctx, scale):
 
 def replay(ctx, obj):
     r = obj["replay"]
-    if "kind" not in r or r.get("kind") not in ("fixed", "random", "wild", "samekey"):
+    if "kind" not in r or r.get("kind") not in ("fixed", "random", "wild", "samekey", "block"):
         print("replay names a proof/correspondence, not an input:", json.dumps(r)[:400])
         return False
     bad = replay_obj(r)
